@@ -54,16 +54,28 @@ func (c *scriptedClock) MeasureClockOffset(ctx context.Context) (time.Time, time
 
 // logged is the "correcting clock" record of one loop iteration.
 type logged struct {
-	ok                                bool
-	refOk, peerOk                     bool
+	ok                                 bool
+	refOk, peerOk                      bool
 	refOff, refCorr, peerOff, peerCorr float64
 }
 
-// observed is everything seen between two clk.Sleep calls.
+// observed is everything seen between two clk.Sleep calls, and what the fake
+// clock did during the Sleep call before them (half intervals; -1: not a whole
+// number of half intervals).
 type observed struct {
-	dos  []time.Duration
-	logs []logged
+	dos   []time.Duration
+	logs  []logged
+	el    int64  // how far the reading clk.Now() moved across that Sleep call
+	slept int64  // (virtual) time until that Sleep call returned
+	epoch uint64 // clk.Epoch() when it returned
 }
+
+// elapse is the environment's choice for one clk.Sleep call (SyncRound.tla,
+// "local clock"): the call returns after slp half intervals and the reading is
+// stepped by stp half intervals meanwhile.
+type elapse struct{ slp, stp int64 }
+
+var onTime = elapse{2, 0}
 
 type recorder struct {
 	mu       stdsync.Mutex // the watchdog reads rounds/cur from outside the bubble
@@ -73,12 +85,25 @@ type recorder struct {
 	driftPer int64
 	tau      time.Duration
 	touched  bool // Drift aside, the loop was reached (Do / Sleep / log)
+	// the local clock: reading = bubble time + skew
+	interval time.Duration // cfg.SyncInterval
+	elapse   []elapse      // elapse[k] is played by the k-th Sleep call (k >= 1)
+	skew     time.Duration
+	epoch    uint64
 }
 
 // fake timebase.SystemClock
-func (r *recorder) Epoch() uint64   { return 0 }
-func (r *recorder) Now() time.Time  { return time.Now() }
-func (r *recorder) Step(time.Duration) {}
+func (r *recorder) Epoch() uint64 {
+	r.mu.Lock()
+	defer r.mu.Unlock()
+	return r.epoch
+}
+func (r *recorder) Now() time.Time {
+	r.mu.Lock()
+	defer r.mu.Unlock()
+	return time.Now().Add(r.skew)
+}
+func (r *recorder) Step(time.Duration)                           {}
 func (r *recorder) Adjust(time.Duration, time.Duration, float64) {}
 func (r *recorder) Drift(d time.Duration) time.Duration {
 	return time.Duration(r.driftPer * int64(d/r.tau))
@@ -88,12 +113,36 @@ func (r *recorder) Sleep(d time.Duration) {
 	r.touched = true
 	r.rounds = append(r.rounds, r.cur)
 	r.cur = observed{}
-	last := len(r.rounds) >= r.nrounds
+	k := len(r.rounds)
+	last := k >= r.nrounds
 	r.mu.Unlock()
 	if last {
 		runtime.Goexit()
 	}
-	time.Sleep(d)
+	e := onTime
+	if k < len(r.elapse) {
+		e = r.elapse[k]
+	}
+	half := r.interval / 2
+	t0, r0 := time.Now(), r.Now()
+	if e.stp != 0 { // the reading is stepped: a new epoch
+		r.mu.Lock()
+		r.skew += time.Duration(e.stp) * half
+		r.epoch++
+		r.mu.Unlock()
+	}
+	time.Sleep(d + time.Duration(e.slp-2)*half) // returns late by slp-2 half intervals
+	slept, el := time.Since(t0), r.Now().Sub(r0)
+	r.mu.Lock()
+	r.cur.slept, r.cur.el, r.cur.epoch = halves(slept, half), halves(el, half), r.epoch
+	r.mu.Unlock()
+}
+
+func halves(d, half time.Duration) int64 {
+	if half <= 0 || d%half != 0 {
+		return -1
+	}
+	return int64(d / half)
 }
 
 // recording adjustments.Adjustment
@@ -106,8 +155,8 @@ func (r *recorder) Do(offset time.Duration) {
 
 // slog.Handler
 func (r *recorder) Enabled(context.Context, slog.Level) bool { return true }
-func (r *recorder) WithAttrs([]slog.Attr) slog.Handler        { return r }
-func (r *recorder) WithGroup(string) slog.Handler             { return r }
+func (r *recorder) WithAttrs([]slog.Attr) slog.Handler       { return r }
+func (r *recorder) WithGroup(string) slog.Handler            { return r }
 func (r *recorder) Handle(_ context.Context, rec slog.Record) error {
 	if rec.Message != "correcting clock" {
 		return nil
@@ -159,8 +208,9 @@ type result struct {
 const hungAfter = 30 * time.Second
 
 func runOnce(t *testing.T, cfg sync.Config, driftPer int64, tau time.Duration, nrounds int,
-	refs, peers []*scriptedClock, onHang func(done []observed, pending observed)) result {
-	res := result{rec: &recorder{nrounds: max(nrounds, 1), driftPer: driftPer, tau: tau}}
+	refs, peers []*scriptedClock, el []elapse, onHang func(done []observed, pending observed)) result {
+	res := result{rec: &recorder{nrounds: max(nrounds, 1), driftPer: driftPer, tau: tau,
+		interval: cfg.SyncInterval, elapse: el}}
 	if onHang != nil {
 		wd := time.AfterFunc(hungAfter, func() { // created outside the bubble: real time
 			res.rec.mu.Lock()
